@@ -13,15 +13,15 @@
    follow refines the reference chown (Memfs/RefineChown.v). Memfs/RefineHistory.v puts the calls together: a reference
    filesystem working on the flat tree alone (it resolves its own path arguments against the tree's working directory), and
    the theorem that from every well-formed kind-sound state - the fresh filesystem in particular - ANY history of
-   mkfile, mkdir_p, mkdir_m, write_all, write_lines, append_all, append_line, append_lines, read_all, read_lines, remove, remove_all (off the root), symlink, readlink, readlink_abs, move_p, set_cwd, cwd, abs, chown without follow, chmod with octal modes without follow, mkfile_m, root, paths / dirs / files / all_paths / all_dirs / all_files, copy of a link-free source to a fresh destination or (a directory) into an existing directory, exists / is_dir / is_file / is_symlink / is_symlink_dir / is_exec / is_readonly, mode / owner / uid / gid
+   mkfile, mkdir_p, mkdir_m, write_all, write_lines, append_all, append_line, append_lines, read_all, read_lines, remove, remove_all (off the root), symlink, readlink, readlink_abs, move_p, set_cwd, cwd, abs, chown without follow, chmod with octal modes without follow, mkfile_m, root, paths / dirs / files / all_paths / all_dirs / all_files, copy of a link-free source to a fresh destination or (a directory) into an existing directory, entries() sorted by name without follow / dirs_first / files_first / contents_first, exists / is_dir / is_file / is_symlink / is_symlink_dir / is_exec / is_readonly, mode / owner / uid / gid
    gives call by call exactly the reference's value or error kind and
-   ends in exactly the reference's tree. PARTIAL: copy onto existing entries, of sources containing links or with follow, entries() with options, symbolic chmod, and chmod / chown with follow are compared with the real code state-for-state
+   ends in exactly the reference's tree. PARTIAL: copy onto existing entries, of sources containing links or with follow, entries() unsorted or with follow / dirs_first / files_first / contents_first, symbolic chmod, and chmod / chown with follow are compared with the real code state-for-state
    and judged on pre/post snapshots, and proved safe (no panic, well formed, kind-sound), but their reference-level
    specification is not yet a theorem. *)
 From stdpp Require Import gmap.
 From Coq Require Import NArith.
 From RV Require Import Base.Str Path.Helpers Path.Expand Memfs.State Memfs.Ops Memfs.Step Memfs.Wf Memfs.WfMore Memfs.WfMove
-  Memfs.ContentFacts Memfs.MoveFacts Memfs.Spec Memfs.Refine Memfs.Kinds Memfs.RemoveAll Memfs.RefineMore Memfs.MkdirFail Memfs.RefineChown Memfs.RefineChmod Memfs.RefineList Memfs.RefineCopy Memfs.Names Memfs.RefineMove Memfs.RefineHistory Memfs.Walk Memfs.WalkOps Macros.Asserts.
+  Memfs.ContentFacts Memfs.MoveFacts Memfs.Spec Memfs.Refine Memfs.Kinds Memfs.RemoveAll Memfs.RefineMore Memfs.MkdirFail Memfs.RefineChown Memfs.RefineChmod Memfs.RefineList Memfs.RefineEntries Memfs.WalkLex Memfs.RefineCopy Memfs.Names Memfs.RefineMove Memfs.RefineHistory Memfs.Walk Memfs.WalkOps Macros.Asserts.
 
 Theorem C01_step_no_panic : forall env m o, step env m o <> Panic.
 Proof. exact step_no_panic. Qed.
@@ -151,6 +151,13 @@ Theorem C01_listing_refines : forall env m k s p, WF m -> kinds_ok m -> resolve 
   listing_op env m k s = Done (inl (spec_list (abs m) k p)).
 Proof. exact listing_refines. Qed.
 Print Assumptions C01_listing_refines.
+
+(* entries() sorted by name, without follow / dirs_first / files_first / contents_first, any depth window and dirs() / files() filter: the
+   reference's listing (qualifying paths at or below the start in increasing lexicographic order) *)
+Theorem C01_entries_refines : forall env m s o p r, WF m -> kinds_ok m -> plain_sorted o -> resolve env m s = inl p -> m_ents m !! p = Some r ->
+  step env m (OEntries s o) = Done (m, inl (VItems (map inl (spec_entries (abs m) o p)))).
+Proof. exact entries_refines. Qed.
+Print Assumptions C01_entries_refines.
 
 (* copy, for the calls the exact copy theorems cover (a source without links, not followed, to a fresh path whose parent is a real directory,
    or a directory into an existing real directory under its own name): the reference adds a copy of every node below the source *)
